@@ -27,6 +27,7 @@ import (
 	"go/types"
 	"math"
 	"math/big"
+	"os"
 	"sort"
 	"strings"
 	"unicode"
@@ -49,6 +50,7 @@ const (
 	KNil
 	KTuple
 	KFunc // known function value
+	KSym  // unknown value with a name: a term over parameters and unmodified input memory
 )
 
 type Val struct {
@@ -58,6 +60,7 @@ type Val struct {
 	B     bool
 	S     string // KStr: the string; KPtr/KSlice: memory path
 	Len   int    // KSlice: length, -1 unknown; KStr n/a
+	Off   int    // KSlice: index of element 0 within the backing store named by S
 	T     types.Type
 	Inner *Val
 	Elems []Val
@@ -76,7 +79,20 @@ func boolVal(b bool) Val     { return Val{K: KBool, B: b} }
 func strVal(s string) Val    { return Val{K: KStr, S: s} }
 func floatVal(f float64) Val { return Val{K: KFloat, F: f} }
 
-func (v Val) known() bool { return v.K != KTop && v.K != KBot }
+func (v Val) known() bool { return v.K != KTop && v.K != KBot && v.K != KSym }
+
+func symVal(term string, dep bool) Val { return Val{K: KSym, S: term, Dep: dep} }
+
+// termOf renders a value as a term; ok is false for unknown values.
+func termOf(v Val) (string, bool) {
+	switch v.K {
+	case KSym:
+		return v.S, true
+	case KInt, KBool, KStr, KFloat:
+		return v.String(), true
+	}
+	return "", false
+}
 
 func (v Val) String() string {
 	switch v.K {
@@ -111,6 +127,8 @@ func (v Val) String() string {
 		return "(" + strings.Join(s, ", ") + ")"
 	case KFunc:
 		return "func " + v.Fn.String()
+	case KSym:
+		return v.S
 	}
 	return "?"
 }
@@ -126,12 +144,12 @@ func equalVal(a, b Val) bool {
 		return a.F == b.F || (a.F != a.F && b.F != b.F)
 	case KBool:
 		return a.B == b.B
-	case KStr:
+	case KStr, KSym:
 		return a.S == b.S
 	case KPtr:
 		return a.S == b.S
 	case KSlice:
-		return a.S == b.S && a.Len == b.Len
+		return a.S == b.S && a.Len == b.Len && a.Off == b.Off
 	case KIface:
 		return types.Identical(a.T, b.T) && equalVal(*a.Inner, *b.Inner)
 	case KTuple:
@@ -168,8 +186,8 @@ func join(a, b Val) Val {
 		}
 		return a
 	}
-	if a.K == KSlice && b.K == KSlice && a.S == b.S {
-		return Val{K: KSlice, S: a.S, Len: -1}
+	if a.K == KSlice && b.K == KSlice && a.S == b.S && a.Off == b.Off {
+		return Val{K: KSlice, S: a.S, Len: -1, Off: a.Off}
 	}
 	if a.K == KTuple && b.K == KTuple && len(a.Elems) == len(b.Elems) {
 		out := Val{K: KTuple, Elems: make([]Val, len(a.Elems))}
@@ -199,6 +217,9 @@ type Interp struct {
 	// subject-derived value the evaluator could not follow.
 	OpaqueSubject bool
 	OpaqueAt      []string
+	// Symbolic makes unbound parameters and unmodified input memory evaluate
+	// to named terms instead of plain unknowns.
+	Symbolic bool
 	// Stuck lists branch conditions that never received a value (analysis bug
 	// or unsupported construct): any verdict based on this run is undecided.
 	Stuck []string
@@ -288,8 +309,21 @@ func (in *Interp) RunOuter(fn *ssa.Function, args []Val, start *ssa.BasicBlock, 
 				fr.evalBlock(b)
 			}
 		}
+		if os.Getenv("SC_TRACE") != "" {
+			fmt.Fprintf(os.Stderr, "round %d of %s: changed=%v blocks=%d edges=%d\n", round, fn.Name(), fr.changed, len(fr.blocks), len(fr.edges))
+			for _, b := range fn.Blocks {
+				for _, i := range b.Instrs {
+					if v, ok := i.(ssa.Value); ok {
+						fmt.Fprintf(os.Stderr, "   b%d %s = %s\n", b.Index, v.Name(), fr.vals[v])
+					}
+				}
+			}
+		}
 		if !fr.changed && gen == in.heapGen {
 			break
+		}
+		if round == 199 {
+			in.Stuck = append(in.Stuck, "no fixpoint in "+FnName(fn))
 		}
 	}
 	out := Outcome{Frame: fr}
@@ -346,11 +380,14 @@ func (fr *frame) addEdge(from, to *ssa.BasicBlock) {
 	}
 }
 
+// setVal records the value recomputed from the current operand values.
+// Operands only move up the lattice from round to round (phis join over a
+// growing edge set), so recomputation converges; the round cap in Run turns a
+// non-converging evaluation into an undecided verdict.
 func (fr *frame) setVal(v ssa.Value, nv Val) {
-	old := fr.vals[v]
-	j := join(old, nv)
-	if old.K != j.K || !equalVal(old, j) {
-		fr.vals[v] = j
+	old, had := fr.vals[v]
+	if !had || old.K != nv.K || !equalVal(old, nv) || old.Dep != nv.Dep {
+		fr.vals[v] = nv
 		fr.changed = true
 	}
 }
@@ -449,9 +486,12 @@ func (fr *frame) eval1(v ssa.Value) Val {
 		return constVal(x)
 	case *ssa.Parameter:
 		for i, p := range fr.fn.Params {
-			if p == x && i < len(fr.args) && fr.args[i].K != KBot {
+			if p == x && i < len(fr.args) && fr.args[i].K != KBot && fr.args[i].K != KTop {
 				return fr.args[i]
 			}
+		}
+		if fr.in.Symbolic {
+			return symVal(x.Name(), false)
 		}
 		return top
 	case *ssa.Function:
@@ -542,7 +582,7 @@ func (fr *frame) eval1(v ssa.Value) Val {
 		idx := fr.eval(x.Index)
 		if base.K == KPtr || base.K == KSlice {
 			if idx.K == KInt && idx.I.IsInt64() {
-				return Val{K: KPtr, S: fmt.Sprintf("%s[%d]", base.S, idx.I.Int64())}
+				return Val{K: KPtr, S: fmt.Sprintf("%s[%d]", base.S, idx.I.Int64()+int64(base.Off))}
 			}
 			return Val{K: KPtr, S: base.S + "[*]"}
 		}
@@ -735,6 +775,8 @@ func convertVal(v Val, from, to types.Type, sizes types.Sizes) Val {
 
 func convertVal0(v Val, from, to types.Type, sizes types.Sizes) Val {
 	switch v.K {
+	case KSym:
+		return symVal(types.TypeString(to, nil)+"("+v.S+")", v.Dep)
 	case KBot:
 		return v
 	case KTop:
@@ -875,6 +917,14 @@ func (fr *frame) binop(x *ssa.BinOp) Val {
 		}
 		return topDep(dep)
 	}
+	if a.K == KSym || b.K == KSym {
+		ta, oka := termOf(a)
+		tb, okb := termOf(b)
+		if oka && okb && len(ta)+len(tb) < 400 {
+			return symVal("("+ta+x.Op.String()+tb+")", dep)
+		}
+		return topDep(dep)
+	}
 	if a.K == KStr && b.K == KStr && x.Op == token.ADD {
 		return Val{K: KStr, S: a.S + b.S, Dep: dep}
 	}
@@ -955,6 +1005,20 @@ func (fr *frame) typeAssert(x *ssa.TypeAssert) Val {
 	if v.K == KBot {
 		return v
 	}
+	if v.K == KSym || (v.K == KPtr && !strings.Contains(v.S, "#")) {
+		// an input interface value: name the asserted view
+		name := v.S + ".(" + types.TypeString(x.AssertedType, func(*types.Package) string { return "" }) + ")"
+		var res Val
+		if _, isPtr := x.AssertedType.Underlying().(*types.Pointer); isPtr {
+			res = Val{K: KPtr, S: "(*" + name + ")"}
+		} else {
+			res = symVal(name, v.Dep)
+		}
+		if x.CommaOk {
+			return Val{K: KTuple, Elems: []Val{res, topDep(v.Dep)}}
+		}
+		return res
+	}
 	if v.K != KIface {
 		if v.K == KNil {
 			if x.CommaOk {
@@ -1019,9 +1083,13 @@ func (fr *frame) slice(x *ssa.Slice) Val {
 			}
 		}
 		return topDep(true)
-	case KPtr: // pointer to array
+	case KPtr, KSlice: // pointer to array, or slice
 		n := -1
-		if p, ok := x.X.Type().Underlying().(*types.Pointer); ok {
+		off := 0
+		if base.K == KSlice {
+			n = base.Len
+			off = base.Off
+		} else if p, ok := x.X.Type().Underlying().(*types.Pointer); ok {
 			if arr, ok := p.Elem().Underlying().(*types.Array); ok {
 				n = int(arr.Len())
 			}
@@ -1032,21 +1100,12 @@ func (fr *frame) slice(x *ssa.Slice) Val {
 		l := -1
 		if lowV.K == KInt && highV.K == KInt && lowV.I.IsInt64() && highV.I.IsInt64() {
 			l = int(highV.I.Int64() - lowV.I.Int64())
+			if l < 0 {
+				l = -1
+			}
 		}
-		if lowV.K == KInt && lowV.I.Sign() == 0 {
-			return Val{K: KSlice, S: base.S, Len: l}
-		}
-		return Val{K: KSlice, S: base.S + "[+]", Len: l}
-	case KSlice:
-		if x.High == nil && base.Len >= 0 {
-			highV = int64Val(int64(base.Len))
-		}
-		l := -1
-		if lowV.K == KInt && highV.K == KInt && lowV.I.IsInt64() && highV.I.IsInt64() {
-			l = int(highV.I.Int64() - lowV.I.Int64())
-		}
-		if lowV.K == KInt && lowV.I.Sign() == 0 {
-			return Val{K: KSlice, S: base.S, Len: l}
+		if lowV.K == KInt && lowV.I.IsInt64() && lowV.I.Int64() >= 0 && lowV.I.Int64() < 1<<20 {
+			return Val{K: KSlice, S: base.S, Len: l, Off: off + int(lowV.I.Int64())}
 		}
 		return Val{K: KSlice, S: base.S + "[+]", Len: l}
 	}
@@ -1099,6 +1158,26 @@ func (fr *frame) load(path string, t types.Type) Val {
 	// only memory rooted at a fresh allocation is modelled
 	fresh := strings.Contains(path, "#")
 	if !fresh {
+		if !in.Symbolic {
+			return top
+		}
+		// input memory: a named term as long as nothing in the analysed code stores to it
+		for k := range in.heap {
+			if k == path || strings.HasPrefix(path, k+".") || strings.HasPrefix(path, k+"[") || strings.HasPrefix(k, path+".") || strings.HasPrefix(k, path+"[") {
+				return top
+			}
+			if i := strings.LastIndex(path, "["); i >= 0 && strings.HasPrefix(k, path[:i]+"[") {
+				return top
+			}
+		}
+		switch t.Underlying().(type) {
+		case *types.Slice:
+			return Val{K: KSlice, S: path, Len: -1}
+		case *types.Pointer:
+			return Val{K: KPtr, S: "(*" + path + ")"}
+		case *types.Basic, *types.Interface:
+			return symVal(path, false)
+		}
 		return top
 	}
 	res := Val{K: KBot}
@@ -1180,14 +1259,63 @@ func (fr *frame) call(c *ssa.Call) Val {
 			}
 		}
 	}
+	named := func(name string) Val {
+		if !fr.in.Symbolic {
+			return unknown(dep)
+		}
+		var parts []string
+		for _, a := range args {
+			switch a.K {
+			case KSlice:
+				if a.Len >= 0 {
+					parts = append(parts, fmt.Sprintf("%s[%d:%d]", a.S, a.Off, a.Off+a.Len))
+				} else {
+					parts = append(parts, fmt.Sprintf("%s[%d:]", a.S, a.Off))
+				}
+			case KPtr:
+				parts = append(parts, "&"+a.S)
+			default:
+				t, ok := termOf(a)
+				if !ok {
+					return unknown(dep)
+				}
+				parts = append(parts, t)
+			}
+		}
+		term := name + "(" + strings.Join(parts, ",") + ")"
+		mk := func(t types.Type, suffix string) Val {
+			switch t.Underlying().(type) {
+			case *types.Slice:
+				return Val{K: KSlice, S: term + suffix, Len: -1}
+			case *types.Basic:
+				return symVal(term+suffix, dep)
+			}
+			return topDep(dep)
+		}
+		res := com.Signature().Results()
+		if nres == 1 {
+			return mk(res.At(0).Type(), "")
+		}
+		el := make([]Val, nres)
+		for i := range el {
+			el[i] = mk(res.At(i).Type(), fmt.Sprintf("#%d", i))
+		}
+		return Val{K: KTuple, Elems: el}
+	}
 	if callee == nil {
+		if com.IsInvoke() {
+			recv := fr.eval(com.Value)
+			if t, ok := termOf(recv); ok {
+				return named(t + "." + com.Method.Name())
+			}
+		}
 		return unknown(dep)
 	}
 	if v, ok := fr.pureCall(callee, args); ok {
 		return v
 	}
 	if !InModule(callee) || callee.Blocks == nil {
-		return unknown(dep)
+		return named(callee.Name())
 	}
 	out := fr.in.Run(callee, args, nil)
 	if !out.CanReturn {
@@ -1220,24 +1348,57 @@ func (fr *frame) builtin(name string, c *ssa.Call, args []Val) Val {
 			if a.Len >= 0 {
 				return int64Val(int64(a.Len))
 			}
+			if fr.in.Symbolic && a.Off == 0 {
+				return symVal("len("+a.S+")", a.Dep)
+			}
 		case KNil:
 			return int64Val(0)
+		case KSym:
+			return symVal("len("+a.S+")", a.Dep)
 		}
 		return topDep(a.Dep)
 	case "append":
-		// result shares nothing we track; length known when both are
-		if len(args) == 2 && args[0].K == KSlice && args[0].Len >= 0 {
-			if args[1].K == KSlice && args[1].Len >= 0 {
-				return Val{K: KSlice, S: allocName(c), Len: args[0].Len + args[1].Len}
-			}
-			if args[1].K == KStr {
-				return Val{K: KSlice, S: allocName(c), Len: args[0].Len + len(args[1].S)}
+		if len(args) != 2 {
+			return Val{K: KSlice, S: allocName(c), Len: -1}
+		}
+		a0, a1 := args[0], args[1]
+		base := a0.S
+		if a0.K != KSlice || !strings.Contains(a0.S, "#") {
+			base = allocName(c)
+			if a0.K == KNil {
+				a0 = Val{K: KSlice, S: base, Len: 0}
+			} else {
+				a0 = Val{K: KSlice, S: base, Len: -1}
 			}
 		}
-		if len(args) == 2 && args[0].K == KNil && args[1].K == KSlice && args[1].Len >= 0 {
-			return Val{K: KSlice, S: allocName(c), Len: args[1].Len}
+		elemT := types.Type(types.Typ[types.Invalid])
+		if st, ok := c.Type().Underlying().(*types.Slice); ok {
+			elemT = st.Elem()
 		}
-		return Val{K: KSlice, S: allocName(c), Len: -1}
+		switch {
+		case a1.K == KSlice && a1.Len >= 0 && a1.Len <= 64 && a0.Len >= 0:
+			for i := 0; i < a1.Len; i++ {
+				fr.store(Val{K: KPtr, S: fmt.Sprintf("%s[%d]", base, a0.Off+a0.Len+i)}, fr.load(fmt.Sprintf("%s[%d]", a1.S, a1.Off+i), elemT))
+			}
+			return Val{K: KSlice, S: base, Len: a0.Len + a1.Len, Off: a0.Off}
+		case a1.K == KSlice:
+			n := a1.Len
+			if n < 0 || n > 64 {
+				n = -1
+			}
+			if n >= 0 {
+				for i := 0; i < n; i++ {
+					fr.store(Val{K: KPtr, S: base + "[*]"}, fr.load(fmt.Sprintf("%s[%d]", a1.S, a1.Off+i), elemT))
+				}
+			} else {
+				fr.store(Val{K: KPtr, S: base + "[*]"}, fr.load(a1.S+"[*]", elemT))
+			}
+			return Val{K: KSlice, S: base, Len: -1, Off: a0.Off}
+		case a1.K == KNil:
+			return a0
+		}
+		fr.store(Val{K: KPtr, S: base + "[*]"}, top)
+		return Val{K: KSlice, S: base, Len: -1}
 	case "cap":
 		return top
 	}
@@ -1280,7 +1441,7 @@ func (fr *frame) pureCall(fn *ssa.Function, args []Val) (Val, bool) {
 			var goArgs []interface{}
 			d := dep
 			for i := 0; i < args[1].Len; i++ {
-				e := fr.load(fmt.Sprintf("%s[%d]", args[1].S, i), types.NewInterfaceType(nil, nil))
+				e := fr.load(fmt.Sprintf("%s[%d]", args[1].S, args[1].Off+i), types.NewInterfaceType(nil, nil))
 				if e.K != KIface {
 					return topDep(true), true
 				}
@@ -1305,6 +1466,26 @@ func (fr *frame) pureCall(fn *ssa.Function, args []Val) (Val, bool) {
 		if allKnown && args[0].K == KInt && args[0].I.IsInt64() {
 			return Val{K: KBool, B: unicode.IsSpace(rune(args[0].I.Int64())), Dep: dep}, true
 		}
+	case "unicode.IsLetter", "unicode.IsDigit", "unicode.IsUpper", "unicode.IsLower":
+		if allKnown && args[0].K == KInt && args[0].I.IsInt64() {
+			c := rune(args[0].I.Int64())
+			var b bool
+			switch fn.Name() {
+			case "IsLetter":
+				b = unicode.IsLetter(c)
+			case "IsDigit":
+				b = unicode.IsDigit(c)
+			case "IsUpper":
+				b = unicode.IsUpper(c)
+			case "IsLower":
+				b = unicode.IsLower(c)
+			}
+			return Val{K: KBool, B: b, Dep: dep}, true
+		}
+	case "strings.ContainsRune":
+		if allKnown && args[0].K == KStr && args[1].K == KInt && args[1].I.IsInt64() {
+			return Val{K: KBool, B: strings.ContainsRune(args[0].S, rune(args[1].I.Int64())), Dep: dep}, true
+		}
 	case "strings.ToUpper":
 		if allKnown && args[0].K == KStr {
 			return strVal(strings.ToUpper(args[0].S)), true
@@ -1314,3 +1495,39 @@ func (fr *frame) pureCall(fn *ssa.Function, args []Val) (Val, bool) {
 	}
 	return topDep(dep), true
 }
+
+// HeapAt returns what the analysed code stored at a memory path.
+func (in *Interp) HeapAt(path string) (Val, bool) {
+	v, ok := in.heap[path]
+	return v, ok
+}
+
+// Elem reads element i of a modelled slice after a run (join of all stores to
+// that index and to unknown indices; zero value if never stored).
+func (in *Interp) Elem(s Val, i int, t types.Type) Val {
+	fr := &frame{in: in}
+	return fr.load(fmt.Sprintf("%s[%d]", s.S, s.Off+i), t)
+}
+
+// ValueOf returns the fixpoint value of v in this activation.
+func (fr *frame) ValueOf(v ssa.Value) Val {
+	fr.memo = map[ssa.Value]Val{}
+	return fr.eval(v)
+}
+
+// ReturnVals lists the values of every reachable return, in source order.
+func (fr *frame) ReturnVals() [][]Val {
+	var rets []*ssa.Return
+	for r := range fr.returns {
+		rets = append(rets, r)
+	}
+	sort.Slice(rets, func(i, j int) bool { return rets[i].Pos() < rets[j].Pos() })
+	var out [][]Val
+	for _, r := range rets {
+		out = append(out, fr.returns[r])
+	}
+	return out
+}
+
+// Reached reports whether instr was reached in the final round.
+func (fr *frame) Reached(instr ssa.Instruction) bool { return fr.reached[instr] }
